@@ -48,6 +48,18 @@ pub fn c02_scenario(seed: u64, idx: u64) -> Scenario {
             if rng.chance(1, 2) { get(&prev) } else { req("GET", &prev, &[("Range", *rng.pick(&["bytes=0-3", "bytes=2-", "bytes=-4", "bytes=0-1,3-4"]))], b"") }
         } else if rng.chance(1, 6) {
             req("GET", &p, &[("Range", *rng.pick(&["bytes=0-3", "bytes=2-", "bytes=-4", "bytes=0-1,3-4"]))], b"")
+        } else if rng.chance(1, 4) {
+            // headers that select nothing in this server: content codings, long and multi-byte values
+            match rng.below(3) {
+                0 => req("GET", &p, &[("Accept-Encoding", *rng.pick(&["gzip", "gzip, deflate, br", "br;q=1.0, gzip;q=0.8, *;q=0.1", "zstd", "identity", "*", "gzip;q=0"]))], b""),
+                1 => {
+                    let n = rng.range(20, 300);
+                    let ph = rng.below(n);
+                    let v = super::real::utf8_of_len(&mut rng, n, ph);
+                    req("GET", &p, &[(*rng.pick(&["User-Agent", "Referer", "Cookie", "Accept-Language"]), &v)], b"")
+                }
+                _ => { let (n, v) = *rng.pick(super::real::SLIPPED_HEADERS); if n == "Range" || n == "Host" || n.starts_with("If-") { get(&p) } else { req("GET", &p, &[(n, v)], b"") } }
+            }
         } else {
             get(&p)
         };
@@ -178,6 +190,12 @@ pub fn c03_scenario(seed: u64, idx: u64) -> Scenario {
         };
         // position-dependent bytes: a slice identifies its offset
         entries.push(Entry { path: format!("root/{}", name), kind: EntryKind::File(Content::Gen { marker: String::new(), len: l, seed: nonce.wrapping_add(k as u64 * 7919), binary: true }) });
+        // now and then a precompressed sibling lies next to the file
+        if rng.chance(1, 4) {
+            let suffix = *rng.pick(&[".gz", ".gz", ".br", ".zst"]);
+            let sl = *rng.pick(&[0usize, 1, 30, 300, l / 2 + 1, l + 7]);
+            entries.push(Entry { path: format!("root/{}{}", name, suffix), kind: EntryKind::File(Content::Gen { marker: String::new(), len: sl, seed: nonce.wrapping_add(k as u64 * 131 + 5), binary: true }) });
+        }
         files.push((via, l as u64));
     }
     if rng.chance(1, 3) {
@@ -200,6 +218,10 @@ pub fn c03_scenario(seed: u64, idx: u64) -> Scenario {
         let if_range = *rng.pick(&["1600000000000000000", "\"1600000000000000000\"", "0", "1", "\"abc\"", "W/\"abc\"", "Wed, 21 Oct 2015 07:28:00 GMT", "Fri, 01 Jan 2038 00:00:00 GMT", "garbage", ""]);
         if rng.chance(1, 5) {
             hs.push(("If-Range", if_range));
+        }
+        let extra = *rng.pick(&[("Accept-Encoding", "gzip"), ("Accept-Encoding", "gzip, deflate, br"), ("Accept-Encoding", "br;q=1.0, gzip;q=0.8, *;q=0.1"), ("Accept-Encoding", "zstd"), ("Accept-Encoding", "identity"), ("Accept", "*/*"), ("User-Agent", "curl/8.0"), ("Cache-Control", "no-cache")]);
+        if rng.chance(1, 4) {
+            hs.push(extra);
         }
         sc.conns.push(Conn::simple(i, if overlapped { 0 } else { i as u32 }, req("GET", &via, &hs, b""), "range"));
     }
@@ -276,6 +298,28 @@ pub fn large_scenario(prop: &str, seed: u64, idx: u64) -> Scenario {
     sc.tree = TreeSpec { root: "root".into(), entries: vec![Entry { path: format!("root/{}", name), kind: EntryKind::File(Content::Sparse { len: l, seed: rng.next() }) }], mtime_mode: 0 };
     if prop == "C02" {
         sc.conns.push(Conn::simple(0, 0, req("GET", via, &[], b""), "large"));
+        return sc;
+    }
+    if prop == "C05" || prop == "C09" {
+        // the same large file asked for with GET, HEAD and OPTIONS (in this or another order)
+        let hs: Vec<(&str, &str)> = if rng.chance(1, 3) { vec![("Origin", "http://a.example"), ("Access-Control-Request-Method", "GET")] } else { vec![] };
+        sc.env = vec![];
+        let mut order = vec!["GET", "HEAD", "OPTIONS"];
+        if prop == "C05" {
+            rng.shuffle(&mut order);
+            order.truncate(rng.range(1, 3));
+            for (i, m) in order.iter().enumerate() {
+                sc.conns.push(Conn::simple(i, i as u32, req(m, via, &hs, b""), "large"));
+            }
+        } else {
+            sc.conns.push(Conn::simple(0, 0, req("GET", via, &hs, b""), "get"));
+            let mut h = Conn::simple(1, 1, req("HEAD", via, &hs, b""), "head");
+            h.twin = Some(0);
+            sc.conns.push(h);
+            let mut o = Conn::simple(2, 2, req("OPTIONS", via, &hs, b""), "options");
+            o.twin = Some(0);
+            sc.conns.push(o);
+        }
         return sc;
     }
     let n = if huge { rng.range(1, 4) } else { 1 };
